@@ -332,6 +332,11 @@ func GenGrid(t *rapid.T, recs []model.Rec, maxSteps int) model.Params {
 		}
 	}
 	step := rapid.SampledFrom([]int64{1, 2, 4, 4, 8, 20, 28, 40}).Draw(t, "stepticks") * Tick
+	if rapid.IntRange(0, 3).Draw(t, "step-off-the-lattice") == 0 {
+		// Steps that are not binary fractions of a second (a tenth, a fifth, ...): the grid is
+		// still start + k*step in whole nanoseconds.
+		step = rapid.SampledFrom([]int64{100, 200, 300, 600, 700, 1100, 50, 1300, 2900}).Draw(t, "step-ms") * int64(time.Millisecond)
+	}
 	start := lo + rapid.Int64Range(-6, 12).Draw(t, "startticks")*Tick
 	n := rapid.IntRange(0, maxSteps-1).Draw(t, "nsteps")
 	if span := (hi - start) / step; span > 0 && int64(n) < span && rapid.Bool().Draw(t, "cover") {
